@@ -36,6 +36,34 @@ func envOr(k, d string) string {
 
 func harnessDir() string { return filepath.Join(verifRoot, "harness") }
 
+var modfileDir string
+
+// modfileFlag copies /repo's go.mod and go.sum to a scratch directory and returns -modfile=..., so that
+// neither loading nor native builds ever write to /repo (the harness adds direct imports).
+func modfileFlag() string {
+	if modfileDir == "" {
+		d, err := os.MkdirTemp("", "gosx-mod-")
+		if err != nil {
+			fatal(2, "%v", err)
+		}
+		modfileDir = d
+		for _, f := range []string{"go.mod", "go.sum"} {
+			b, err := os.ReadFile(filepath.Join(repoRoot, f))
+			if err != nil {
+				fatal(2, "%v", err)
+			}
+			os.WriteFile(filepath.Join(d, f), b, 0o644)
+		}
+	}
+	return "-modfile=" + filepath.Join(modfileDir, "go.mod")
+}
+
+func cleanupModfile() {
+	if modfileDir != "" {
+		os.RemoveAll(modfileDir)
+	}
+}
+
 // overlayFiles maps virtual paths inside /repo to the real harness files.
 func overlayFiles() map[string]string {
 	out := map[string]string{}
@@ -71,7 +99,7 @@ func load() *loaded {
 		}
 		overlay[virt] = b
 	}
-	cfg := &packages.Config{Mode: packages.LoadAllSyntax, Dir: repoRoot, Overlay: overlay, BuildFlags: []string{"-tags=verif"},
+	cfg := &packages.Config{Mode: packages.LoadAllSyntax, Dir: repoRoot, Overlay: overlay, BuildFlags: []string{"-tags=verif", modfileFlag()},
 		Env: append(os.Environ(), "GOFLAGS=-mod=mod", "GOPROXY=off", "GOSUMDB=off", "GOTOOLCHAIN=local")}
 	pkgs, err := packages.Load(cfg, "./zz_verif")
 	if err != nil {
@@ -93,6 +121,16 @@ func load() *loaded {
 
 func fatal(code int, f string, a ...interface{}) {
 	fmt.Fprintf(os.Stderr, f+"\n", a...)
+	exit(code)
+}
+
+var cleanups []func()
+
+func exit(code int) {
+	for _, f := range cleanups {
+		f()
+	}
+	cleanupModfile()
 	os.Exit(code)
 }
 
@@ -118,9 +156,12 @@ func main() {
 		cmdCheck(os.Args[2:])
 	case "replay":
 		cmdReplay(os.Args[2:])
+	case "selftest":
+		cmdSelftest()
 	default:
 		fatal(2, "unknown command %s", os.Args[1])
 	}
+	exit(0)
 }
 
 func cmdRun(args []string) {
